@@ -440,6 +440,22 @@ ReduceArr(r, a, axis, keepdims) ==
        ELSE Scalar(FoldOpU(op, a.v))
   ELSE ReduceAxis1(op, a, IF axis < 0 THEN axis + Len(a.sh) ELSE axis, keepdims)
 
+\* reduction over TWO axes given as a tuple (each possibly negative, distinct after
+\* normalisation): numpy's axis=(a1, a2)
+NormAxis(ax, nd) == IF ax < 0 THEN ax + nd ELSE ax
+ReduceArr2(r, a, ax1, ax2, keepdims) ==
+  LET op == ReduceName2Op(r)
+      nd == Len(a.sh)
+      n1 == NormAxis(ax1, nd)
+      n2 == NormAxis(ax2, nd)
+      hi == IF n1 > n2 THEN n1 ELSE n2
+      lo == IF n1 > n2 THEN n2 ELSE n1
+      red == ReduceAxis1(op, ReduceAxis1(op, a, hi, FALSE), lo, FALSE)
+  IN IF nd < 2 \/ n1 < 0 \/ n2 < 0 \/ n1 >= nd \/ n2 >= nd \/ n1 = n2 THEN UArr
+     ELSE IF keepdims
+     THEN [sh |-> [j \in 1..nd |-> IF j = n1 + 1 \/ j = n2 + 1 THEN 1 ELSE a.sh[j]], v |-> red.v]
+     ELSE red
+
 Reshape(a, sh) == IF Size(sh) = Size(a.sh) THEN [sh |-> sh, v |-> a.v] ELSE UArr
 
 \* x[..., i] along 0-based axis `axis` of the event shape
